@@ -38,6 +38,7 @@ def run(eng, rep) -> None:
     rep.rule("R03.1", "visitor exhaustive; every hook overridden; emitted wrapper names/arities exist in decoders.h; free template names bound")
     rep.rule("R03.2", "constructor parameters, FromJson arguments and Decode's constructor arguments iterate in one order; wire loops are id-sorted")
     rep.rule("R03.3", "enum Encode/Decode/GetSize width = enum.get_packed_size()")
+    rep.rule("R03.13", "the text bound to `namespace` at every render site of the struct template is usable as a C++ identifier (protocol names are not C++ keywords, or are escaped)")
     rep.rule("R03.12", "the header generated for a model struct (fields declared fb@1, fa@0, fc@2, three different wrapper types) type-checks under clang against buffer.h/decoders.h")
     rep.rule("R03.11", "synthesised rpc type names (<name>MethodId, <name>Input, <name>Output): definitions and references derive the name identically")
     rep.rule("R03.10", "a generated Encode() starts from an empty buffer, or one pre-sized with no more than the struct's smallest encoding")
@@ -111,6 +112,7 @@ def run(eng, rep) -> None:
     # free names of fcp.h.j2 at its render sites
     jb = JinjaBinding(eng)
     presize_rule(eng, rep, jb)
+    namespace_rule(eng, rep)
     from .struct_codec import run_struct_rules
     run_struct_rules(eng, rep, None, "R03.2", "R03.12")
     synth_name_rule(eng, rep, jb)
@@ -422,3 +424,73 @@ def synth_name_rule(eng, rep, jb) -> None:
             if not dtr:
                 rep.undecided("R03.11", lst[0][1].split("::")[0], "-", "<name>%s" % suf, "derivations differ (%s) but no definition site was recognised" % desc)
     rep.ok("R03.11", "-", "-", "synthesised type-name families (by suffix)", "%d compared" % n)
+
+
+# ---------------------------------------------------------------- R03.13: namespaces of the per-protocol headers
+CPP_KEYWORDS = frozenset("""alignas alignof and and_eq asm auto bitand bitor bool break case catch char char8_t char16_t char32_t class compl concept const
+consteval constexpr constinit const_cast continue co_await co_return co_yield decltype default delete do double dynamic_cast else enum explicit export
+extern false float for friend goto if inline int long mutable namespace new noexcept not not_eq nullptr operator or or_eq private protected public
+register reinterpret_cast requires return short signed sizeof static static_assert static_cast struct switch template this thread_local throw true try
+typedef typeid typename union unsigned using virtual void volatile wchar_t while xor xor_eq""".split())
+
+
+def namespace_rule(eng, rep) -> None:
+    """`namespace {{namespace}} {` in fcp.h.j2: the text bound to `namespace` at each render site must be usable as a C++ identifier.
+    Protocol names are bound there; the parser itself gives every struct a binding of protocol "default" - a C++ keyword."""
+    prog = eng.prog
+    gens = [f for f in prog.functions.values() if f.module.name.startswith("fcp_cpp") and f.name == "generate" and f.cls is not None]
+    if not gens:
+        rep.undecided("R03.13", "-", "-", "fcp_cpp Generator.generate", "not found")
+        return
+    g = gens[0]
+    # protocol names the repository itself creates bindings with
+    own = {}
+    for f in prog.functions.values():
+        for n in walk_local(f.node):
+            if isinstance(n, ast.Call) and (dotted(n.func) or "").split(".")[-1] == "Impl":
+                for k in n.keywords:
+                    if k.arg == "protocol" and isinstance(k.value, ast.Constant) and isinstance(k.value.value, str):
+                        own.setdefault(k.value.value, "%s (%s)" % (f.qual, f.file))
+    n_sites = 0
+    for n in walk_local(g.node):
+        if not (isinstance(n, ast.Call) and isinstance(n.func, ast.Attribute) and n.func.attr == "with_file" and len(n.args) >= 3 and isinstance(n.args[2], ast.Dict)):
+            continue
+        d = n.args[2]
+        for k, v in zip(d.keys, d.values):
+            if not (isinstance(k, ast.Constant) and k.value == "namespace"):
+                continue
+            n_sites += 1
+            site = "with_file(%s, ..., namespace=%s)" % (norm(n.args[0], 30), norm(v, 40))
+            if isinstance(v, ast.Constant):
+                if v.value is None:
+                    rep.ok("R03.13", g.file, g.qual, site, "no inner namespace")
+                else:
+                    rep.check(str(v.value) not in CPP_KEYWORDS, "R03.13", g.file, g.qual, site, "a valid C++ identifier", "the namespace '%s' is a C++ keyword: the header does not compile" % v.value)
+                continue
+            escaped = None
+            if isinstance(v, ast.Call):
+                r = prog.resolve_expr_symbol(g.module, g, v.func)
+                fn = prog.functions.get(r[1]) if r and r[0] == "func" else (eng.cg.function_value(g, v.func) if hasattr(eng.cg, "function_value") else None)
+                if fn is not None:
+                    consts = {c.value for c in ast.walk(fn.node) if isinstance(c, ast.Constant) and isinstance(c.value, str)}
+                    modconsts = {c.value for a_ in fn.module.assigns.values() for c in ast.walk(a_) if isinstance(c, ast.Constant) and isinstance(c.value, str)}
+                    words = {w for c_ in (consts | modconsts) for w in str(c_).split()}
+                    escaped = len(words & CPP_KEYWORDS) >= 5
+            if escaped is None and isinstance(v, ast.IfExp) and isinstance(v.test, ast.Compare) and isinstance(v.test.ops[0], (ast.In, ast.NotIn)):
+                coll = v.test.comparators[0]
+                cv = g.module.assigns.get(coll.id) if isinstance(coll, ast.Name) else coll
+                words = {w for c_ in ast.walk(cv) if isinstance(c_, ast.Constant) and isinstance(c_.value, str) for w in c_.value.split()} if cv is not None else set()
+                escaped = len(words & CPP_KEYWORDS) >= 5
+            if escaped:
+                rep.ok("R03.13", g.file, g.qual, site, "the name is passed through a function that knows the C++ keywords")
+                continue
+            bad = sorted(set(own) & CPP_KEYWORDS)
+            loops = [l for l in walk_local(g.node) if isinstance(l, ast.For) and any(x is n for x in ast.walk(l))]
+            from_protocols = any("get_protocols" in norm(l.iter) for l in loops) and isinstance(v, ast.Name) and any(isinstance(l.target, ast.Name) and l.target.id == v.id for l in loops)
+            if from_protocols and bad:
+                rep.violation("R03.13", g.file, g.qual, site, "the protocol name is used verbatim as a C++ namespace, and the repository itself creates bindings of protocol '%s' (%s), a C++ keyword: for EVERY schema the generated fcp_%s.h contains `namespace %s {` and does not compile" % (bad[0], own[bad[0]], bad[0], bad[0]))
+            elif from_protocols:
+                rep.undecided("R03.13", g.file, g.qual, site, "protocol names are used verbatim as C++ namespaces; a user-chosen protocol name that is a C++ keyword is not escaped")
+            else:
+                rep.undecided("R03.13", g.file, g.qual, site, "origin of the namespace text not recognised")
+    rep.ok("R03.13", g.file, g.qual, "render sites that set `namespace`", "%d found" % n_sites)
